@@ -258,6 +258,9 @@ func (c *Ctx) ruleWriteShape() {
 				if fc.val&oE != 0 {
 					okF, detF = false, fmt.Sprintf("O_EXCL set in flag value %#x", fc.val)
 				}
+				if extra := fc.val &^ (3 | oC | oA); extra != 0 && c.exactOpenFlags {
+					okF, detF = false, fmt.Sprintf("flag value %#x carries bits %#x beyond O_WRONLY|O_CREATE[|O_APPEND]", fc.val, extra)
+				}
 				if fc.val&oA != 0 {
 					hasAppendCase = true
 				} else {
